@@ -746,7 +746,8 @@ func (p *parser) processCtl(nodes []node, root *node, ctl []byte, pos int) ([]no
 	// Check include.
 	if m := reInc.FindSubmatch(ct); m != nil {
 		root.typ = typeInclude
-		root.tpl = bytes.Split(m[1], space)
+		// Names are separated by runs of blanks: two blanks in a row must not add an empty name to the list.
+		root.tpl = bytes.Fields(m[1])
 		nodes = addNode(nodes, *root)
 		offset = pos + len(ctl)
 		return nodes, offset, up, err
